@@ -3,7 +3,7 @@
     unique minimiser (C01) - every smoother variant ends with such a solve at a positive lambda. *)
 From Coq Require Import ZArith Reals Lra List.
 From HDC Require Import Base.Prelude Base.Ops Model.Ws2d Model.Smoothers Proofs.RSums Proofs.Penalty Proofs.Ws2dReal
-     Proofs.Ws2dLaws Proofs.Rounding Proofs.SmoothersProofs Proofs.C06Proofs Model.VCurve Proofs.C06Lift.
+     Proofs.Ws2dLaws Proofs.Rounding Proofs.SmoothersProofs Proofs.C06Proofs Model.VCurve Proofs.C06Lift Proofs.Expectile Proofs.ExpectileModel.
 Open Scope R_scope.
 
 Definition contract (y w : list R) (lam : R) : Prop :=
@@ -85,3 +85,26 @@ Theorem C06_gcv_scan_shift : forall (K : Gcv.gconsts (F := R)) (y wt : list R) (
   (let '(sc, s, z) := Gcv.gcv_scan OpsR de wt y lams (sc0, s0, z0) in (sc, s, shiftl c z)).
 Proof. intros K y wt c de lams sc0 s0 z0 Hl Hn Wn W2 Hp. exact (gcv_scan_shift y wt c Hl Hn Wn W2 de lams Hp sc0 s0 z0). Qed.
 Print Assumptions C06_gcv_scan_shift.
+
+(** through the asymmetric reweighting: whenever the loop settles (the returned curve reproduces itself under the reweighting)
+    the curve is the unique expectile curve (C03_fixed_point_is_expectile), and that curve moves with an offset and with a
+    reversal of time - whatever curve the iteration started from *)
+Theorem C06_expectile_shift : forall p lam (w y z1 z2 : list R) c,
+  0 < p < 1 -> 0 < lam -> (4 <= length y)%nat -> length w = length y -> length z1 = length y -> length z2 = length y ->
+  (forall i, (0 <= i < Z.of_nat (length y))%Z -> 0 <= atl w i) ->
+  (exists a b, (0 <= a < b)%Z /\ (b < Z.of_nat (length y))%Z /\ 0 < atl w a /\ 0 < atl w b) ->
+  z1 = ws2d OpsR y lam (asym_weights OpsR p (1 - p) w y z1) ->
+  z2 = ws2d OpsR (shiftr c y) lam (asym_weights OpsR p (1 - p) w (shiftr c y) z2) ->
+  z2 = shiftr c z1.
+Proof. exact expectile_curve_shift. Qed.
+Print Assumptions C06_expectile_shift.
+
+Theorem C06_expectile_rev : forall p lam (w y z1 z2 : list R),
+  0 < p < 1 -> 0 < lam -> (4 <= length y)%nat -> length w = length y -> length z1 = length y -> length z2 = length y ->
+  (forall i, (0 <= i < Z.of_nat (length y))%Z -> 0 <= atl w i) ->
+  (exists a b, (0 <= a < b)%Z /\ (b < Z.of_nat (length y))%Z /\ 0 < atl w a /\ 0 < atl w b) ->
+  z1 = ws2d OpsR y lam (asym_weights OpsR p (1 - p) w y z1) ->
+  z2 = ws2d OpsR (rev y) lam (asym_weights OpsR p (1 - p) (rev w) (rev y) z2) ->
+  z2 = rev z1.
+Proof. exact expectile_curve_rev. Qed.
+Print Assumptions C06_expectile_rev.
